@@ -85,6 +85,7 @@ type SpecFn struct {
 }
 
 type Lemma struct {
+	KnownID string // canary: a statement expected to be REFUTED while the known finding KnownID exists
 	Name    string
 	E       *Expr
 	Assumed bool // axiom
@@ -139,7 +140,7 @@ type ContractFile struct {
 }
 
 var itemKeywords = map[string]bool{"spec": true, "lemma": true, "axiom": true, "typeinv": true, "interface": true,
-	"ghost": true, "guarded_by": true, "lockinv": true, "locklevel": true, "func": true, "const": true, "props": true, "extern": true}
+	"ghost": true, "guarded_by": true, "lockinv": true, "locklevel": true, "func": true, "const": true, "props": true, "extern": true, "canary": true}
 
 var clauseKeywords = map[string]bool{"mode": true, "instances": true, "requires": true, "ensures": true, "modifies": true,
 	"pure": true, "trusted": true, "holds": true, "acquires": true, "releases": true, "decreases": true, "case": true, "use": true,
@@ -195,6 +196,10 @@ func ParseContractText(data, path, pkg string) (*ContractFile, error) {
 			continue
 		}
 		w := firstWord(body)
+		if strings.HasPrefix(w, "@") {
+			logical = append(logical, rawLine{strings.TrimSpace(body), i + 1})
+			continue
+		}
 		if itemKeywords[w] || isClauseStart(w) {
 			logical = append(logical, rawLine{strings.TrimSpace(body), i + 1})
 		} else {
@@ -231,6 +236,21 @@ func ParseContractText(data, path, pkg string) (*ContractFile, error) {
 					return nil, fail("const needs name = value")
 				}
 				cf.Consts[strings.TrimSpace(parts[0])] = strings.TrimSpace(parts[1])
+			case "canary":
+				// canary <known-finding id> <name> [hints]: <statement that is false because of the finding>
+				idx := strings.Index(rest, ":")
+				if idx < 0 {
+					return nil, fail("canary <id> <name>: expr")
+				}
+				f := strings.Fields(rest[:idx])
+				if len(f) < 2 {
+					return nil, fail("canary <id> <name>: expr")
+				}
+				e, err := parseExpr(rest[idx+1:])
+				if err != nil {
+					return nil, fail("%v", err)
+				}
+				cf.Lemmas = append(cf.Lemmas, &Lemma{KnownID: f[0], Name: f[1], Hints: f[2:], E: e, Pkg: pkg, Line: rl.line, Text: strings.TrimSpace(rest[idx+1:])})
 			case "lemma", "axiom":
 				idx := strings.Index(rest, ":")
 				if idx < 0 {
@@ -343,12 +363,20 @@ func ParseContractText(data, path, pkg string) (*ContractFile, error) {
 		if cur == nil {
 			return nil, fail("clause %q outside a func item", w)
 		}
+		instFilter := ""
+		if strings.HasPrefix(w, "@") && !strings.Contains(w, "@@") {
+			// "@int64 ensures ..." : the clause applies only to the generic instance int64
+			instFilter = strings.TrimPrefix(w, "@")
+			rl.text = strings.TrimSpace(strings.TrimPrefix(rl.text, w))
+			w = firstWord(rl.text)
+			rest = strings.TrimSpace(strings.TrimPrefix(rl.text, w))
+		}
 		mk := func(text string, ord int) (*Clause, error) {
 			e, err := parseExpr(text)
 			if err != nil {
 				return nil, fail("%v", err)
 			}
-			return &Clause{Text: strings.TrimSpace(text), E: e, Ord: ord, Line: rl.line}, nil
+			return &Clause{Text: strings.TrimSpace(text), E: e, Ord: ord, Line: rl.line, Tag: instFilter}, nil
 		}
 		switch {
 		case w == "requires":
